@@ -68,4 +68,20 @@ PROPS = {
         "explanation": "eval_req of the table vs. observed effect for every (method, argument variant, signer set); coverage of the manifests compiled now is a closed vm_compute statement in the cases file",
         "assumptions": ["principals named by arguments / NNS owner and admin are supplied by the harness from the arguments it built and from ownerOf/properties read on chain"],
     },
+    "C19": {
+        "level_text": "Deposit acceptance rule (iff, exactly one Deposit), exact withdraw/candidate fee movement, exact cheque payout, balance identity gas(NeoFS)=initial+received-cheques over every history, honesty of Deposit notifications, emit permission and split arithmetic for all g>=0 and N>=1 (floors, non-negative rest, total conserved, fault branches), accept-only of Proxy/Processing/Alphabet: proved in Coq for every state, context, deployment and receiver behaviour; models tied to the code by a differential check on real native GAS/NEO of a neotest chain",
+        "level_note": "Trusted: Coq kernel; shape of native GAS transfer (debit, credit, synchronous onNEP17Payment, fault reverts) as written in Model/Gas.v; hand-written models validated differentially; CreateStandardAccount/CreateMultisigAccount as finite tables; GAS minted by NEO is an input read back from the chain; premises of the identity: NeoFS never signs a transaction, no key's standard account is the contract hash; emit theorems assume non-negative balance and mint",
+        "technique": TECH_INV,
+        "harness_test": "TestC19",
+        "explanation": "Method specifications for every callback/state (Proofs/GasNeoFS.v, GasAlphabet.v), lifted to histories by induction over fold_left (Proofs/GasWorld.v); correspondence on corpus + seeded histories over random deployments (committee 1..7, both notary modes, alphabet lists 1..7, fees unset/0/negative/oversized, inner ring 0..7)",
+        "assumptions": ["every transaction is paid by a separate account, NEO is held by the validator: observed balances move only by what the contracts do", "Global witness scopes; arguments of declared types; sha256(key||'delete') modelled as the injective key++'delete'", "ledger non-negativity is a premise of the emit theorems (not proved as a history invariant)"],
+    },
+    "C20": {
+        "level_text": "Refinement of the NeoFSID, configuration (Netmap, NeoFS) and estimation stores to reference objects keyed by the numbers (owner/key set, key->value map, (epoch,cid,node)->value map with exact cleanup by the two deltas) proved in Coq for every history; access theorems; for the epoch-prefix listings of reputation, audit and container: exact characterisation for every history, refutation of exactness (witness epochs 1/257) and exactness under the precise no-foreign-prefix condition; models tied to the code by differential correspondence on the compiled contracts",
+        "level_note": "Trusted: Coq kernel; hand-written storage-level models validated differentially (SHA-256/RIPEMD-160 abstract: hashes supplied by the harness; truncated node hash collision-free on the history is a premise; container existence, witnesses and netmap.snapshot(1) are inputs read on the chain; NeoFS in notary mode; epoch-list capacity parametric, measured each run); six F2 call sites are recorded findings",
+        "technique": TECH_INV,
+        "harness_test": "TestC20",
+        "explanation": "Refinement theorems by induction over all histories (Proofs/Stores*.v); listings via a generic prefix-scan library (Proofs/StoreLib.v); correspondence on seeded histories over epochs {0,1,127,128,255,256,257,65535,65536,2^31,-1} incl. the F2 witness corpus",
+        "assumptions": ["container ids are 32-byte SHA-256 digests and node hashes 20-byte RIPEMD-160 digests whose 10-byte truncation does not collide within a history (ehist_ok); CleanupDelta >= 0", "neo-go 0.107: storage Get/Find with a key longer than 64 bytes faults (modelled, observed)"],
+    },
 }
